@@ -1,4 +1,4 @@
 #!/usr/bin/env bash
 cd "$(dirname "$0")/.."
+tools/seedsweep.sh "2 3 4 5 6 7"
 tools/seeds_all.sh
-tools/seedsweep.sh "10 11 12"
